@@ -29,38 +29,45 @@ def text(doc, tid, imports_b=False):
 def histories(max_len, docs=("A", "B")):
     """All protocol-legal event sequences: open before change/close; versions strictly increase within one open..close
     session; a re-open either continues the numbering or starts again at 1 (both are legal: LSP orders versions only
-    within a session, and editors restart at 1)."""
+    within a session, and editors restart at 1); a change either carries a new text or - at most once per history - the
+    text the document had two steps earlier in the same session (an undo: the text equals what the server may have stored)."""
     out = []
 
-    def rec(seq, state, nextver):
+    def rec(seq, state, nextver, texts, undone):
         if seq:
             out.append(list(seq))
         if len(seq) == max_len:
             return
+        k = len(seq)
         for d in docs:
             if state[d] == "closed":
                 for v in sorted({nextver[d], 1}):
-                    ev = {"op": "open", "doc": d, "ver": v}
-                    rec(seq + [ev], {**state, d: "open"}, {**nextver, d: v + 1})
+                    ev = {"op": "open", "doc": d, "ver": v, "text_of": k}
+                    rec(seq + [ev], {**state, d: "open"}, {**nextver, d: v + 1}, {**texts, d: [k]}, undone)
             else:
-                ev = {"op": "change", "doc": d, "ver": nextver[d]}
-                rec(seq + [ev], state, {**nextver, d: nextver[d] + 1})
-                ev = {"op": "close", "doc": d, "ver": 0}
-                rec(seq + [ev], {**state, d: "closed"}, nextver)
+                ev = {"op": "change", "doc": d, "ver": nextver[d], "text_of": k}
+                rec(seq + [ev], state, {**nextver, d: nextver[d] + 1}, {**texts, d: texts[d] + [k]}, undone)
+                if not undone and len(texts[d]) >= 2:
+                    ev = {"op": "change", "doc": d, "ver": nextver[d], "text_of": texts[d][-2]}
+                    rec(seq + [ev], state, {**nextver, d: nextver[d] + 1}, {**texts, d: texts[d] + [texts[d][-2]]}, True)
+                ev = {"op": "close", "doc": d, "ver": 0, "text_of": None}
+                rec(seq + [ev], {**state, d: "closed"}, nextver, {**texts, d: []}, undone)
 
-    rec([], {d: "closed" for d in docs}, {d: 1 for d in docs})
+    rec([], {d: "closed" for d in docs}, {d: 1 for d in docs}, {d: [] for d in docs}, False)
     return out
 
 
-def materialise(h, broken_b=False):
+def materialise(h, broken_b=False, two_imports=False):
     """broken_b: document B's texts do not parse (A's dependency analysis then publishes B's parse errors while holding the
-    read guard); B itself is then not judged, A is."""
+    read guard); B itself is then not judged, A is. Texts are identified by the event that first sent them (text_of)."""
     evs = []
-    for tid, e in enumerate(h):
-        t = "" if e["op"] == "close" else text(e["doc"], tid, imports_b=(e["doc"] == "A"))
+    for e in h:
+        t = "" if e["op"] == "close" else text(e["doc"], e["text_of"], imports_b=(e["doc"] == "A"))
+        if two_imports and e["doc"] == "A" and t:
+            t = t + "from c import helper_c\n"
         if broken_b and e["doc"] == "B" and t:
             t = t + "def broken(:\n"
-        evs.append({**e, "text": t})
+        evs.append({"op": e["op"], "doc": e["doc"], "ver": e["ver"], "text": t})
     return evs
 
 
@@ -78,6 +85,7 @@ def prepare_dir():
     # the on-disk copy of b.incn (used when B is not open in the editor); a.incn exists so that file URIs canonicalise
     open(os.path.join(DIR, "b.incn"), "w").write("pub def helper_b() -> int:\n    return 1\n")
     open(os.path.join(DIR, "a.incn"), "w").write("def on_disk_a() -> int:\n    return 1\n")
+    open(os.path.join(DIR, "c.incn"), "w").write("pub def helper_c() -> int:\n    return 2\n")
 
 
 def classify(v):
@@ -147,7 +155,7 @@ def run(tier):
         "samples": samples or [{"history": hs[0][1][0]}],
         "evaluations": execs,
         "distinct_nontrivial": nontriv,
-        "rule": f"all {len(base)} protocol-legal open/change/close histories of length <= {max_len} over documents A (imports B) and B (a re-open continues the version numbering or restarts at 1), all {len(single)} histories of length {max_len + 1}..{long_len} on document A alone, and again with a B that does not parse ({len(hs)} in total); for each, every schedule of "
+        "rule": f"all {len(base)} protocol-legal open/change/close histories of length <= {max_len} over documents A (imports B) and B (a re-open continues the version numbering or restarts at 1; a change carries a new text or, once per history, the text of two steps earlier - an undo), all {len(single)} histories of length {max_len + 1}..{long_len} on document A alone, and again with a B that does not parse ({len(hs)} in total); for each, every schedule of "
         f"arrive / poll(woken handler) / drain steps with <= {bound} deviations from the eager-client and from the lazy-client default schedule, each run to quiescence on a fresh "
         "real LspService; states = complete executions (each is a distinct schedule), transitions = arrive/poll/drain steps executed; non-trivial = schedules containing at least "
         "one pending poll (a handler actually suspended at an await point)",
